@@ -799,7 +799,11 @@ pub fn rich_key_pool(n: usize, with_dirs: bool, flavour: u64, rng: &mut Rng) -> 
     if flavour == 0 {
         return key_pool(n, with_dirs);
     }
-    let names = ["1", "2", "3", "4", "readme", "my note", "über", "c.d", "x%20y", "a+b", "日本", "UPPER", "2024-01-01", "idea", "Todo", "todo", "2024.01.15", "2024.01"];
+    let mut names = vec!["1", "2", "3", "4", "readme", "my note", "über", "c.d", "x%20y", "a+b", "日本", "UPPER", "2024-01-01", "idea", "Todo", "todo", "2024.01.15", "2024.01"];
+    if flavour == 2 {
+        // a literal per-cent sign that is not the start of an escape: the editor sends it as %25
+        names.extend(["100%", "50% done", "a%zz", "100%", "50% done"]);
+    }
     let dirs: Vec<&str> = if with_dirs { vec!["", "", "projects", "archive", "with space", "d/e"] } else { vec![""] };
     let mut v: Vec<String> = vec![];
     let mut guard = 0;
